@@ -1,5 +1,163 @@
 import YProofs.Props.C01
-/-! placeholder, replaced below -/
+import YModel.Slice
+/-!
+# C14 — Results do not depend on contraction policy, fusion mode or lazy state
+
+The Lean model has ONE specification per operation, defined on the logical view of a tensor: there is no
+policy, no default fusion mode and no pending permutation in it, so its results (and the theorems of
+C01/C02/C03 about them) are independent of those knobs by construction.  What has to be shown about the
+model is that the things the real code *accumulates lazily* compose the way the eager operations do:
+* `transpose_compose_dense` – two transpositions in a row (what a pending `trans` plus a new `transpose`
+  amount to) describe the same dense array as the single composed transposition;
+* `unroll_sum` – summing a contraction over the pieces of ANY partition of an index range gives the full sum
+  (the identity behind `contract_with_unroll`, for contracted and – with disjoint supports – output indices);
+* `chunks_partition`, `chunks_sizes` – `slice_leg_uniform` cuts the positions of a leg into consecutive
+  pieces that cover every position exactly once, each piece non-empty and of at most `size` positions, all
+  but the last of exactly `size`.
+That the three production kernels, the meta→hard resolution and `consume_transpose` implement this one
+specification is the subject of the lockstep differential execution of the harness (the deciding tie).
+-/
 namespace YModel
-theorem c14_placeholder : True := trivial
+variable {R : Type} {ms : List Nat}
+
+theorem pick_pick {α} [Inhabited α] (l : List α) (σ τ : List Nat) (hτ : ∀ q ∈ τ, q < σ.length) :
+    pick (pick l σ) τ = pick l (pick σ τ) := by
+  unfold pick
+  rw [List.map_map]
+  apply List.map_congr_left
+  intro q hq
+  have := hτ q hq
+  simp [List.getD, this]
+
+/-- **pending permutations compose**: transposing by `σ` and then by `τ` describes, on the correspondingly
+permuted leg spaces and multi-index, the same dense array as the original tensor — exactly as the single
+transposition by the composed permutation `pick σ τ` does (`toDense_transpose`).  Hence accumulating
+permutations lazily (`trans`) or materialising each one is unobservable. -/
+theorem transpose_compose_dense [Zero R] {σ τ : List Nat} {a b c : Tensor R} (ha : WF ms a)
+    (h1 : transpose σ a = .ok b) (h2 : transpose τ b = .ok c) (L : List LegSpace) (idx : List Nat)
+    (hidx : idx.length = a.rank) :
+    toDenseOn (pick L (pick σ τ)) c (pick idx (pick σ τ)) = toDenseOn L a idx := by
+  have hb := wf_transpose ha h1
+  obtain ⟨hσ, hbdef⟩ := transpose_ok_iff h1
+  obtain ⟨hτ, _⟩ := transpose_ok_iff h2
+  have hbr : b.rank = a.rank := by rw [hbdef]; simp [Tensor.rank, pick_length, isPerm_length hσ]
+  have hτlt : ∀ q ∈ τ, q < σ.length := by
+    intro q hq
+    have := isPerm_lt hτ q hq
+    rw [hbr, ← isPerm_length hσ] at this
+    exact this
+  rw [← pick_pick L σ τ hτlt, ← pick_pick idx σ τ hτlt]
+  rw [toDense_transpose hb h2 (pick L σ) (pick idx σ) (by rw [pick_length, hbr, isPerm_length hσ])]
+  exact toDense_transpose ha h1 L idx hidx
+
+/-- materialising or copying is the identity on the logical view -/
+def consumeTranspose (a : Tensor R) : Tensor R := a
+def copyT (a : Tensor R) : Tensor R := a
+theorem consumeTranspose_obs [Zero R] (a : Tensor R) (L : List LegSpace) (idx : List Nat) :
+    toDenseOn L (consumeTranspose a) idx = toDenseOn L a idx ∧ (consumeTranspose a).n = a.n ∧
+    legSpaces (consumeTranspose a) = legSpaces a := ⟨rfl, rfl, rfl⟩
+
+/-! ### unrolling: a sum over the pieces of a partition is the whole sum -/
+
+theorem sum_flatten_map (f : Nat → Int) (parts : List (List Nat)) :
+    (parts.map (fun S => (S.map f).sum)).sum = (parts.flatten.map f).sum := by
+  induction parts with
+  | nil => rfl
+  | cons S rest ih => simp [List.sum_append, ih]
+
+/-- **unroll_sum**: if the pieces `parts` partition the index range `0..n-1` (every index in exactly one piece,
+in any order), then summing the partial contractions `Σ_{j∈S} f j` over the pieces gives the full contraction
+`Σ_{j<n} f j` — for every summand `f` (bilinearity is not even needed: the masks only restrict the range). -/
+theorem unroll_sum (f : Nat → Int) (n : Nat) (parts : List (List Nat)) (hp : parts.flatten.Perm (List.range n)) :
+    (parts.map (fun S => (S.map f).sum)).sum = ((List.range n).map f).sum := by
+  rw [sum_flatten_map]
+  exact perm_sum_int (hp.map f)
+
+/-! ### `slice_leg_uniform` -/
+open Slice
+
+theorem chunksAux_flatten {α} (n : Nat) (hn : 0 < n) (fuel : Nat) (l : List α) (hf : l.length ≤ fuel) :
+    (chunksAux n fuel l).flatten = l := by
+  induction fuel generalizing l with
+  | zero =>
+    have : l = [] := List.eq_nil_of_length_eq_zero (by omega)
+    subst this; rfl
+  | succ k ih =>
+    cases l with
+    | nil => rfl
+    | cons x xs =>
+      simp only [chunksAux, List.flatten_cons]
+      rw [ih ((x :: xs).drop n) (by simp only [List.length_drop, List.length_cons] at hf ⊢; omega)]
+      exact List.take_append_drop n (x :: xs)
+
+/-- **the slices partition the leg**: concatenating the pieces gives back every position exactly once, in order -/
+theorem chunks_partition {α} (n : Nat) (hn : 0 < n) (l : List α) : (chunks n l).flatten = l :=
+  chunksAux_flatten n hn l.length l (Nat.le_refl _)
+
+theorem chunksAux_sizes {α} (n : Nat) (hn : 0 < n) (fuel : Nat) (l : List α) (hf : l.length ≤ fuel) :
+    ∀ c ∈ chunksAux n fuel l, c ≠ [] ∧ c.length ≤ n := by
+  induction fuel generalizing l with
+  | zero => intro c hc; simp [chunksAux] at hc
+  | succ k ih =>
+    cases l with
+    | nil => intro c hc; simp [chunksAux] at hc
+    | cons x xs =>
+      intro c hc
+      simp only [chunksAux, List.mem_cons] at hc
+      rcases hc with rfl | hc
+      · refine ⟨?_, by simp [List.length_take]⟩
+        intro h
+        have := congrArg List.length h
+        simp [List.length_take] at this
+        omega
+      · exact ih ((x :: xs).drop n) (by simp only [List.length_drop, List.length_cons] at hf ⊢; omega) c hc
+
+/-- every slice is non-empty and holds at most `size` positions -/
+theorem chunks_sizes {α} (n : Nat) (hn : 0 < n) (l : List α) : ∀ c ∈ chunks n l, c ≠ [] ∧ c.length ≤ n :=
+  chunksAux_sizes n hn l.length l (Nat.le_refl _)
+
+theorem chunksAux_full {α} (n : Nat) (hn : 0 < n) (fuel : Nat) (l : List α) (hf : l.length ≤ fuel) :
+    ∀ c ∈ (chunksAux n fuel l).dropLast, c.length = n := by
+  induction fuel generalizing l with
+  | zero => intro c hc; simp [chunksAux] at hc
+  | succ k ih =>
+    cases l with
+    | nil => intro c hc; simp [chunksAux] at hc
+    | cons x xs =>
+      intro c hc
+      simp only [chunksAux] at hc
+      cases hrest : chunksAux n k ((x :: xs).drop n) with
+      | nil => rw [hrest] at hc; simp at hc
+      | cons y ys =>
+        rw [hrest, List.dropLast_cons_of_ne_nil (by simp)] at hc
+        rcases List.mem_cons.mp hc with rfl | hc
+        · -- the first piece is full because something is left after it
+          have hne : (x :: xs).drop n ≠ [] := by
+            intro h; rw [h] at hrest
+            cases k <;> simp [chunksAux] at hrest
+          have : n < (x :: xs).length := by
+            by_contra hge
+            exact hne (List.drop_eq_nil_of_le (by omega))
+          simp only [List.length_take, List.length_cons] at this ⊢; omega
+        · have := ih ((x :: xs).drop n) (by simp only [List.length_drop, List.length_cons] at hf ⊢; omega) c
+          rw [hrest] at this
+          exact this hc
+
+/-- all slices but the last hold exactly `size` positions -/
+theorem chunks_full {α} (n : Nat) (hn : 0 < n) (l : List α) : ∀ c ∈ (chunks n l).dropLast, c.length = n :=
+  chunksAux_full n hn l.length l (Nat.le_refl _)
+
+/-- `slice_leg_uniform`: the pieces partition the positions of the leg -/
+theorem slice_uniform_partition (Ds : List Nat) (size : Nat) (hs : 0 < size) :
+    (chunks size (positions Ds)).flatten = positions Ds ∧
+    (∀ c ∈ chunks size (positions Ds), c ≠ [] ∧ c.length ≤ size) ∧
+    (∀ c ∈ (chunks size (positions Ds)).dropLast, c.length = size) :=
+  ⟨chunks_partition size hs _, chunks_sizes size hs _, chunks_full size hs _⟩
+
+/-- non-vacuity -/
+example : sliceUniform [3, 2, 4] 4 = [[(0, 0, 3), (1, 0, 1)], [(1, 1, 2), (2, 0, 3)], [(2, 3, 4)]] := by decide
+example : (chunks 4 (positions [3, 2, 4])).flatten = positions [3, 2, 4] := by decide
+example : (transpose [1, 0] exA).toOption.bind (fun b => (transpose [1, 0] b).toOption.map (fun c =>
+    toDenseOn [[([0], 1), ([1], 2)], [([0], 2), ([1], 1)]] c [1, 2])) = some 2 := by decide
+
 end YModel
